@@ -243,7 +243,7 @@ unsafe fn drop_cycle<T>(cycle: HashMap<Link<T>, usize>) {
         // deallocate. This allows us to bust the cycle detection by clearing
         // all links.
         let rcbox = ptr.as_ptr();
-        let cycle_strong_refs = {
+        {
             let mut links = (*rcbox).links().borrow_mut();
             links
                 .extract_if(|link, _| {
@@ -253,26 +253,24 @@ unsafe fn drop_cycle<T>(cycle: HashMap<Link<T>, usize>) {
                         false
                     }
                 })
-                .map(|(link, count)| {
-                    if let Kind::Forward = link.kind() {
-                        count
-                    } else {
-                        0
-                    }
-                })
-                .sum::<usize>()
-        };
+                .for_each(drop);
+        }
 
         // To be in a cycle, at least one `value` field in an `RcBox` in the
         // cycle holds a strong reference to `this`. Mark all nodes in the cycle
         // as dead so when we deallocate them via the `value` pointer we don't
         // get a double-free.
+        //
+        // `refcount` is the number of strong references to this object that
+        // are owned by members of the cycle. This is not the same as the
+        // number of references this object holds to other members: the two
+        // differ as soon as members have unequal in- and out-degree.
         #[cfg(cactusref_verif)]
         crate::verif::ev(crate::verif::Event::Bust(
             rcbox as usize,
-            cycle_strong_refs.min((*rcbox).strong()),
+            refcount.min((*rcbox).strong()),
         ));
-        for _ in 0..cycle_strong_refs.min((*rcbox).strong()) {
+        for _ in 0..refcount.min((*rcbox).strong()) {
             (*rcbox).dec_strong();
         }
     }
